@@ -655,7 +655,11 @@ def run_unusable_between(params, known):
                 # messages that concern nothing this agent has going on, alone and in FRONT of a usable message of the same datagram
                 ('unsolicited-path-mtu-confirmation', C.dumps({7: [12345, [0, 1]]})), ('unsolicited-confirmation+bundle', C.dumps({7: [12345, [0, 1]]}) + WHOLE),
                 ('confirmation-of-the-wrong-shape', C.dumps({7: 12345})),
-                ('ecn-counts-out-of-the-blue', C.dumps({8: [1, 2, 3]})), ('probe-of-unknown-shape', C.dumps({6: 'x'}))]
+                ('ecn-counts-out-of-the-blue', C.dumps({8: [1, 2, 3]})), ('probe-of-unknown-shape', C.dumps({6: 'x'})),
+                # congestion feedback for a socket this agent has never sent through, in front of a bundle in the same datagram
+                ('ecn-counts-out-of-the-blue+bundle', C.dumps({8: [1, 2, 3]}) + WHOLE),
+                ('unknown-extension-key+bundle', C.dumps({99: 1}) + WHOLE)]
+    # (a message that is itself malformed may take the rest of its datagram with it: not judged)
     for (uname, octets) in unusable:
         for pos in (0, 1, 2):
             count += 1
